@@ -130,6 +130,33 @@ def parse_with_library(text):
     return b.close()
 
 
+HDR_V1 = "OFXHEADER:100\r\nDATA:OFXSGML\r\nVERSION:102\r\nSECURITY:NONE\r\nENCODING:USASCII\r\nCHARSET:NONE\r\nCOMPRESSION:NONE\r\nOLDFILEUID:NONE\r\nNEWFILEUID:NONE\r\n\r\n"
+HDR_V2 = '<?xml version="1.0" encoding="UTF-8" standalone="no"?>\r\n<?OFX OFXHEADER="200" VERSION="203" SECURITY="NONE" OLDFILEUID="NONE" NEWFILEUID="NONE"?>\r\n'
+BAD_BODIES = ["<A><B>x</A>", "<A><B><C>1</B></A>", "<A>x</A>tail", "<A><B>", "</A>"]
+
+
+def parse_file_with_library(text, hdr):
+    """The same body as a complete file (header + body) through the public entry point."""
+    import io
+
+    from ofxtools.Parser import OFXTree
+
+    t = OFXTree()
+    return t.parse(io.BytesIO((hdr + text).encode("utf_8")))
+
+
+def _fail_a_parse(k):
+    """History: a parse that fails while elements are open.  Every parse starts from a clean slate."""
+    from ofxtools.Parser import TreeBuilder
+
+    try:
+        b = TreeBuilder()
+        b.feed(BAD_BODIES[k % len(BAD_BODIES)])
+        b.close()
+    except Exception:
+        pass
+
+
 def _failure_key(node, acc):
     if acc["cdata"]:
         if acc["cdata_ws"]:
@@ -163,6 +190,9 @@ def check_case(case):
         raise H.HarnessError(f"renderer/scanner disagree on {text!r}: {mine}")
     acc = classify_rendering(node) if node is not None else {"cdata": text.count("<![CDATA["), "cdata_ws": 0, "unclosed": 0, "gaps": set()}
     suffix = _failure_key(node, acc) if node is not None else ("cdata" if acc["cdata"] else "plain")
+    if case.get("after_bad") is not None:
+        _fail_a_parse(case["after_bad"])
+        suffix += "/after-a-failed-parse"
     try:
         root = parse_with_library(text)
     except Exception as e:
@@ -177,6 +207,18 @@ def check_case(case):
         an = X.etree_anomalies(root)
         if an:
             out.append((f"tree-anomaly/{suffix}", f"{text!r}: {an[:3]}"))
+    if case.get("file") and not out:
+        # the same body as a complete file under a version-1 and a version-2 header: header handling hands the body
+        # over verbatim, so the tree is the same
+        for nm, hdr in (("v1-header", HDR_V1), ("v2-header", HDR_V2)):
+            try:
+                r2 = parse_file_with_library(text, hdr)
+            except Exception as e:
+                out.append((f"file-rejected/{nm}/{suffix}", f"{text!r}: {e!r}"))
+                continue
+            g2 = X.from_etree(r2) if r2 is not None else None
+            if g2 != want:
+                out.append((f"file-wrong-tree/{nm}/{suffix}", f"{text!r} parsed as {g2!r}, expected {want!r}"))
     return out
 
 
@@ -248,6 +290,11 @@ def _enum_worker(job):
     shape = shapes(nnodes)[shape_idx]
     tags = ["OFX", "A1", "B.C", "D_E"] if scheme == 0 else ["T"]
     n = nt = 0
+    # odd shards: the enumeration runs after a parse that failed with elements still open
+    bad = shape_idx if (shape_idx + nnodes) % 2 else None
+    if bad is not None:
+        _fail_a_parse(bad)
+        s.label("enumeration shards run after a failed parse")
     for text, want, unclosed, cd, _ in variants(shape, tags, [0], top=True):
         n += 1
         nontrivial = unclosed or cd
@@ -259,6 +306,8 @@ def _enum_worker(job):
             ok = False
         if not ok:
             case = {"text": text, "want": want}
+            if bad is not None:
+                case["after_bad"] = bad
             for k, d in check_case(case):
                 s.fail(k, case, d)
         elif n % 5003 == 0:
@@ -294,9 +343,17 @@ def _sample_worker(job):
         for a, b in zip(toks, toks[1:]):
             labs.append(f"pair:{a}>{b}")
         text = X.render(node)
-        s.case({"tree": node}, nontrivial=nontrivial, labels=labs, h=H.chash(text))
-        for k, d in check_case({"tree": node}):
-            s.fail(k, {"tree": node}, d)
+        case = {"tree": node}
+        h = H.chash(text)
+        if h[-1] in "01234567":
+            case["file"] = True
+            labs.append("also as a complete file (v1 and v2 header)")
+        if h[-2] in "0123":
+            case["after_bad"] = int(h[-3], 16)
+            labs.append("after a failed parse")
+        s.case(case, nontrivial=nontrivial, labels=labs, h=h)
+        for k, d in check_case(case):
+            s.fail(k, case, d)
 
     H.hyp_run(tree_st(max_leaves), body, n, seed, stats=s)
     return s
